@@ -79,5 +79,28 @@ def run(chk):
     sim = L.simulate(chk, "6 blocks (cache mode)", 2000 if thorough else 150, 14,
                      txs=["T1", "T2", "T3", "T6", "T7"], blocks=6, tpb=2, bad=1, deliver=7)
     chk.absorb(L.replay(chk, lbin, lb + sim, "c15", mode="cache"), "node caches under ledger behaviours")
+    # 4. the indexed transaction cache and transactions without outputs: Irreversible.tla's scripted
+    # behaviours (blocks carrying RevertToPOW / RevertToDPOS transactions are attached, detached and
+    # re-attached); the lookup must find such a transaction exactly while its block is on the active chain
+    import importlib.util
+    _sp = importlib.util.spec_from_file_location("prop_C30", os.path.join(os.path.dirname(__file__), "C30.py"))
+    c30 = importlib.util.module_from_spec(_sp)
+    _sp.loader.exec_module(c30)
+    ibin = vf.go_build("irrev")
+    ib = []
+    for name, steps in sorted(c30.scenarios().items()):
+        r = vf.tlc("Chain", "IrrScenario", "sc.cfg",
+                   cfg_text=c30.cfg(spec="SSpec", nb=40, ns=40, nf=4, fd=40, nm=6, nr=3, props="ACTION_CONSTRAINT SEmit"),
+                   files={"IrrScript.tla": c30.script_tla(steps)}, workers=1, timeout=300)
+        vf.tlc_ok(r, "scenario " + name)
+        b, _ = vf.behaviours(r, dedupe_prefixes=False)
+        if len(b) != 1:
+            raise vf.Infra("scenario %s not fully enabled" % name)
+        chk.add_tlc(r, "Irreversible.tla scenario " + name)
+        ib += b
+    ipath = os.path.join(vf.scratch(), "c15-irr.jsonl")
+    vf.write_json_lines(ipath, ib)
+    chk.absorb(vf.run_sharded(ibin, lambda i, n: ["replay", ipath, str(i), str(n)], shards=len(ib), env={"VERIF_IRREV_BASE": "8"}),
+               "lookup of output-less transactions across reorganisations (indexed transaction cache)")
     chk.assumptions += ["blockchain.MaxReferenceSize lowered to 2 (exported variable)", "send cache driven over net.Pipe"]
     return chk.finish(exhaustive=False)
